@@ -130,7 +130,7 @@ Fixpoint write_fde_insns (dbg be : bool) (caf : N) (daf : Z) (prev : N) (l : lis
 Definition write_nop (dbg : bool) (length align : N) : res (list byte) :=
   if align =? 0 then Panic else
   if dbg && negb (N.land align (align - 1) =? 0) then Panic else
-  if dbg && (wrap64 length =? 0) then Panic (* !0 + 1 overflows *) else
+  if dbg && (length =? 0) then Panic (* !0 + 1 overflows; length is a real usize, never 0 at the two call sites *) else
   let neg := wrap64 (two64 - wrap64 length) in
   let tail := N.land neg (align - 1) in
   Ok (repeat x00 (N.to_nat tail)).
